@@ -134,12 +134,35 @@ theorem tie_minRt (bs : List Bucket) :
         exact if_neg ht
   · decide
 
-/-- `overloadFactor` = Between((cpuMax − cpu) / (cpuMax − threshold), 0.1, 1). -/
-theorem tie_factor (threshold cpu : Int) :
+/-- `overloadFactor` = Between((cpuMax − cpu) / (cpuMax − threshold), 0.1, 1) whenever the division is an ordinary
+one (threshold ≠ cpuMax; thresholds above cpuMax included). -/
+theorem tie_factor (threshold cpu : Int) (h : threshold ≠ 1000) :
     overloadFactor threshold cpu = factorExpr (factorRawExpr cpu threshold) := by
-  simp only [overloadFactor, factorExpr, factorRawExpr, C02.between, Extracted.C02.between, C02.cpuMax,
-    factorLowerBound]
+  unfold overloadFactor
+  rw [if_neg (show ¬ threshold = C02.cpuMax from h)]
+  simp only [factorExpr, factorRawExpr, C02.between, Extracted.C02.between, C02.cpuMax, factorLowerBound]
   rfl
+
+/-- threshold = cpuMax: the float64 division is by zero.  The model takes `+Inf` (cpu < cpuMax) to the upper clamp
+1, `−Inf` (cpu > cpuMax) to the lower clamp, and 0/0 (cpu = cpuMax) to the lower bound — the last by the guard
+`if math.IsNaN(factor) { factor = overloadFactorLowerBound }` of fixes/C02-threshold-at-cpumax-nan.patch.
+Until that patch is applied the unguarded form is accepted too (the harness then reports `nan=1` on such calls and the
+driver follows the implementation: finding C02-threshold-at-cpumax-nan, witness `Pinned.witness` in Props.lean). -/
+theorem tie_factorAtCpuMax :
+    ((factorNanGuard = "math.IsNaN(factor)" ∧ factorNanValue = "overloadFactorLowerBound"
+        ∧ overloadFactorShape = ["call stat.CpuUsage", "if math.IsNaN(factor) {", "}", "call mathx.Between", "return"])
+      ∨ (factorNanGuard = "" ∧ factorNanValue = ""
+        ∧ overloadFactorShape = ["call stat.CpuUsage", "call mathx.Between", "return"]))
+    ∧ overloadFactor 1000 1000 = overloadFactorLowerBound
+    ∧ (∀ cpu : Int, cpu < 1000 → overloadFactor 1000 cpu = 1)
+    ∧ (∀ cpu : Int, 1000 ≤ cpu → overloadFactor 1000 cpu = overloadFactorLowerBound) := by
+  refine ⟨by decide, by decide +kernel, ?_, ?_⟩
+  · intro cpu h
+    simp [overloadFactor, C02.cpuMax, h]
+  · intro cpu h
+    have : ¬ cpu < 1000 := by omega
+    simp only [overloadFactor, C02.cpuMax, this, if_true, if_false]
+    unfold overloadFactorLowerBound factorLowerBound; rfl
 
 /-- `stillHot`'s two tests: overloadTime == 0, and timex.Since(overloadTime) < coolOffDuration. -/
 theorem tie_stillHot (s : Shedder) (now : Nat) :
